@@ -459,6 +459,8 @@ def make_doc(seed: int) -> dict:
     p_on = r.choice([0.5, 0.7, 0.9])
     toggles = {t: r.random() < p_on for t in docgen.TOGGLES}
     toggles["same_name_two_locations"] = False  # inline enum names may collide across locations: diagnostics on a clean document
+    toggles["no_operation_id"] = False  # file provenance needs the prefix-free operationId tokens
+    toggles["long_paths"] = False
     g = docgen.DocGen(r, toggles=toggles, size=r.choice(["small", "small", "medium"]))
     g.ref_weight = 5.0
     return g.document()
